@@ -35,42 +35,62 @@ func checkC02(c *fw.Ctx) {
 	want := setOf("signatures", "unsigned")
 	for name, fn := range map[string]*ssa.Function{"SignJSON": sign, "VerifyJSON": verify} {
 		got, nonConst := removedKeys(fn)
-		c.Check(nonConst == 0, "1 siblings", name+" removes only constant member names", c.P.Pos(fn.Pos()), "", "a member is removed under a non-constant name")
-		c.Check(sameSet(got, want), "1 siblings", name+" excludes exactly {signatures, unsigned} from the signed projection", c.P.Pos(fn.Pos()), strings.Join(sortedSet(got), ","), "the excluded member set is "+strings.Join(sortedSet(got), ",")+": "+diffSets(got, want))
+		construct := name + " excludes exactly {signatures, unsigned} from the signed projection"
+		switch {
+		case nonConst > 0 || len(got) == 0:
+			// the removals could not be resolved to constant names (or none was found): nothing to compare
+			c.Undecided("1 siblings", construct, fmt.Sprintf("%d removal(s) under names that could not be resolved to constants, %d resolved", nonConst, len(got)))
+		default:
+			c.Check(sameSet(got, want), "1 siblings", construct, c.P.Pos(fn.Pos()), strings.Join(sortedSet(got), ","), "the excluded member set is "+strings.Join(sortedSet(got), ",")+": "+diffSets(got, want))
+		}
 	}
 
 	canon := fw.NameIs("gmsl.CanonicalJSON")
-	// 2. messages
+	edSign := fw.NameIs("golang.org/x/crypto/ed25519.Sign", "crypto/ed25519.Sign")
+	edVerify := fw.NameIs("golang.org/x/crypto/ed25519.Verify", "crypto/ed25519.Verify")
+	// 2. messages (the calls may live in unexported helpers; arguments are resolved through frames)
 	nsign := 0
-	for _, call := range fw.CallsTo(sign, false, fw.NameIs("golang.org/x/crypto/ed25519.Sign", "crypto/ed25519.Sign")) {
+	for _, dc := range deepCallsTo(sign, edSign) {
 		nsign++
+		call := dc.Call
 		// the signed bytes: CanonicalJSON( message minus the excluded members ), helpers transparent
-		keys, nonConst, passed, okOrigin := strippedChain(call.Common().Args[1], func(v ssa.Value) bool { return isParam(v, sign, 3) }, map[string][]int{"gmsl.CanonicalJSON": {0}})
-		c.Check(passed["gmsl.CanonicalJSON"], "2 message", "SignJSON signs CanonicalJSON of the projection", c.P.Pos(call.Pos()), "", "ed25519.Sign is applied to bytes that are not the result of CanonicalJSON")
-		c.Check(okOrigin && nonConst == 0 && sameSet(keys, want), "2 message", "SignJSON canonicalises the input minus the excluded members", c.P.Pos(call.Pos()), strings.Join(sortedSet(keys), ","), fmt.Sprintf("the signed bytes are not the input message with exactly {signatures, unsigned} deleted (derives from the message only: %v; deleted: %s)", okOrigin, strings.Join(sortedSet(keys), ",")))
+		keys, nonConst, passed, origin := strippedChain3(call.Common().Args[1], dc.Fr, call.(ssa.Instruction), func(v ssa.Value) bool { return isParam(v, sign, 3) }, map[string][]int{"gmsl.CanonicalJSON": {0}})
+		switch {
+		case origin == fw.Unknown || nonConst > 0:
+			c.Undecided("2 message", "SignJSON canonicalises the input minus the excluded members", "the provenance of the signed bytes could not be resolved completely")
+		default:
+			c.Check(passed["gmsl.CanonicalJSON"], "2 message", "SignJSON signs CanonicalJSON of the projection", c.P.Pos(call.Pos()), "", "ed25519.Sign is applied to bytes that are not the result of CanonicalJSON")
+			c.Check(origin == fw.Yes && sameSet(keys, want), "2 message", "SignJSON canonicalises the input minus the excluded members", c.P.Pos(call.Pos()), strings.Join(sortedSet(keys), ","), fmt.Sprintf("the signed bytes are not the input message with exactly {signatures, unsigned} deleted (derives from the message only: %v; deleted: %s)", origin, strings.Join(sortedSet(keys), ",")))
+		}
 	}
 	c.Min("2 message ed25519.Sign sites", nsign, 1)
 	nver := 0
-	for _, call := range fw.CallsTo(verify, false, fw.NameIs("golang.org/x/crypto/ed25519.Verify", "crypto/ed25519.Verify")) {
+	for _, dc := range deepCallsTo(verify, edVerify) {
 		nver++
-		ok := fw.DerivesFrom(call.Common().Args[1], fw.FlowSpec{IsSource: fw.IsResultOf(canon, 0), All: true})
-		c.Check(ok, "2 message", "VerifyJSON verifies over CanonicalJSON of the projection", c.P.Pos(call.Pos()), "", "ed25519.Verify is applied to bytes that are not the result of CanonicalJSON")
-		c.Check(isParam(call.Common().Args[0], verify, 2), "3 binding", "VerifyJSON verifies under the caller's public key", c.P.Pos(call.Pos()), "", "the public key given to ed25519.Verify is not the publicKey parameter")
+		call := dc.Call
+		use := call.(ssa.Instruction)
+		c.CheckDerives(call.Common().Args[1], dc.Fr, fw.FlowSpec{IsSource: fw.IsResultOf(canon, 0), All: true, Use: use}, "2 message", "VerifyJSON verifies over CanonicalJSON of the projection", c.P.Pos(call.Pos()), "", "ed25519.Verify is applied to bytes that are not the result of CanonicalJSON")
+		c.Expect(isParamDeep(call.Common().Args[0], dc.Fr, verify, 2), "3 binding", "VerifyJSON verifies under the caller's public key", c.P.Pos(call.Pos()), "", "the public key given to ed25519.Verify could not be traced to the publicKey parameter")
 		// signature operand: signatures[signingName][keyID]
-		sig := fw.Unwrap(call.Common().Args[2])
-		okSig := false
+		sig, sfr := rootOf(call.Common().Args[2], dc.Fr)
+		okSig, seenLookup := false, false
 		if ex, isEx := sig.(*ssa.Extract); isEx {
 			sig = ex.Tuple
 		}
 		if lk, isLk := sig.(*ssa.Lookup); isLk {
-			inner := fw.Unwrap(lk.X)
+			inner, ifr := rootOf(lk.X, sfr)
 			if lk2, ok2 := inner.(*ssa.Lookup); ok2 {
-				if isParam(fw.Unwrap(lk.Index), verify, 1) && isParam(fw.Unwrap(lk2.Index), verify, 0) {
+				seenLookup = true
+				if isParamDeep(lk.Index, sfr, verify, 1) && isParamDeep(lk2.Index, ifr, verify, 0) {
 					okSig = true
 				}
 			}
 		}
-		c.Check(okSig, "3 binding", "VerifyJSON reads signatures[signingName][keyID]", c.P.Pos(call.Pos()), "", "the signature that is verified is not looked up under the function's own signing name and key id")
+		if seenLookup {
+			c.Check(okSig, "3 binding", "VerifyJSON reads signatures[signingName][keyID]", c.P.Pos(call.Pos()), "", "the signature that is verified is looked up under something other than the function's own signing name and key id")
+		} else {
+			c.Undecided("3 binding", "VerifyJSON reads signatures[signingName][keyID]", "the signature operand is not a two-level map lookup: "+fw.Sig(sig))
+		}
 	}
 	c.Min("2 message ed25519.Verify sites", nver, 1)
 	// the projection is rebuilt with encoding/json, not with path-interpreting setters
@@ -78,20 +98,48 @@ func checkC02(c *fw.Ctx) {
 		if fn == nil {
 			continue
 		}
-		for _, call := range fw.CallsTo(fn, true, func(n string) bool {
+		for _, dc := range deepCallsTo(fn, func(n string) bool {
 			return strings.HasPrefix(n, "github.com/tidwall/sjson.") || strings.HasPrefix(n, "github.com/tidwall/gjson.Get")
 		}) {
-			args := call.Common().Args
+			args := dc.Call.Common().Args
 			if len(args) < 2 {
 				continue
 			}
-			_, isConst := fw.ConstString(args[1])
-			c.Check(isConst, "2 message", name+": JSON paths are constants", c.P.Pos(call.Pos()), "", fw.CalleeName(call)+" is called with a non-constant path: member names containing '.', '*' or '?' are interpreted as paths, so the signed and the verified projection differ")
+			_, isConst := fw.ConstStringsIn(args[1], dc.Fr)
+			c.Check(isConst, "2 message", name+": JSON paths are constants", c.P.Pos(dc.Call.Pos()), "", fw.CalleeName(dc.Call)+" is called with a non-constant path: member names containing '.', '*' or '?' are interpreted as paths, so the signed and the verified projection differ")
 		}
 	}
-	for _, cc := range fw.CallsTo(verify, false, canon) {
-		ok := fw.DerivesFrom(cc.Common().Args[0], fw.FlowSpec{IsSource: fw.IsResultOf(fw.NameIs("encoding/json.Marshal"), 0), All: true})
-		c.Check(ok, "2 message", "VerifyJSON re-serialises the remaining members with encoding/json", c.P.Pos(cc.Pos()), "", "the bytes canonicalised by VerifyJSON are not json.Marshal of the decoded object")
+	// the members are carried as raw JSON between decoding and re-encoding: decoding them into Go
+	// values (interface{}) re-prints numbers (1.50 -> 1.5, 2^53+1 -> 2^53) and so changes what is verified
+	for _, dc := range deepCallsTo(verify, fw.NameIs("encoding/json.Marshal")) {
+		arg := dc.Call.Common().Args[0]
+		if mi, isMI := arg.(*ssa.MakeInterface); isMI {
+			arg = mi.X
+		}
+		t := arg.Type()
+		if pt, isP := t.Underlying().(*types.Pointer); isP {
+			t = pt.Elem()
+		}
+		mt, isMap := t.Underlying().(*types.Map)
+		if !isMap {
+			continue
+		}
+		elem := mt.Elem()
+		if pt, isP := elem.Underlying().(*types.Pointer); isP {
+			elem = pt.Elem()
+		}
+		construct := "VerifyJSON carries the signed members as raw JSON"
+		switch {
+		case strings.HasSuffix(elem.String(), "json.RawMessage") || strings.HasSuffix(elem.String(), "spec.RawJSON"):
+			c.Ok("2 message", construct, c.P.Pos(dc.Call.Pos()), elem.String())
+		case types.IsInterface(elem):
+			c.Fail("2 message", construct, c.P.Pos(dc.Call.Pos()), "the object that is re-serialised for verification holds decoded Go values ("+mt.String()+"): numbers are re-printed in Go's shortest form, so the verified bytes differ from the signed ones for 1.50, 1e3 or integers above 2^53, and different numbers can verify under one signature")
+		default:
+			c.Undecided("2 message", construct, "members are held as "+mt.String())
+		}
+	}
+	for _, dc := range deepCallsTo(verify, canon) {
+		c.CheckDerives(dc.Call.Common().Args[0], dc.Fr, fw.FlowSpec{IsSource: fw.IsResultOf(fw.NameIs("encoding/json.Marshal"), 0), All: true, Use: dc.Call.(ssa.Instruction)}, "2 message", "VerifyJSON re-serialises the remaining members with encoding/json", c.P.Pos(dc.Call.Pos()), "", "the bytes canonicalised by VerifyJSON are not json.Marshal of the decoded object")
 	}
 
 	// 3. gates
@@ -131,6 +179,10 @@ func checkC02(c *fw.Ctx) {
 
 	// 4. SignJSON merge
 	checkSignMerge(c, sign)
+
+	// 4b. the canonical form both sides sign over orders members by their decoded names on every
+	// path (shared with C01.4/5)
+	checkSortJSON(c)
 
 	// 6. the signature strings of the object are JSON strings: their value is obtained by
 	// JSON-decoding (escapes such as \/ are legal inside base64 text), never by slicing the raw token
